@@ -232,6 +232,46 @@ func c13Subsets(tier string, i int) CaseResult {
 	return cr
 }
 
+// c13Visibility: one request of every kind on every server configuration (incl. sessions
+// disabled): the handler sees the values of the context functions in registration order, the
+// session of the request (where there is one), the server handle and the notification sender.
+func c13Visibility(tier string, i int) CaseResult {
+	modes := []string{"sj", "ss", "sl", "sd", "ls"}
+	mode := modes[i]
+	cr := CaseResult{Desc: "mode=" + mode + ": what handlers see in their context", Nontrivial: true}
+	var viol []explore.Violation
+	obs := &hx.Log{}
+	res := vsched.Run(vsched.Config{}, func() {
+		r := c13RigMask(mode, &hx.Log{}, 7)
+		p := NewRawPeer(r)
+		p.P.Headers["X-Tok"] = "admin"
+		if err := p.Handshake(); err != nil {
+			viol = append(viol, V("setup-handshake-fails", "setting the scenario up with well-behaved peers fails: %v", err))
+			return
+		}
+		sid := p.SID
+		if mode == "ls" {
+			sid = "sse-0001"
+		}
+		for k, op := range []string{"tools/call", "prompts/get", "resources/read"} {
+			f, err := p.Call(fmt.Sprintf(`{"jsonrpc":"2.0","id":%d,"method":%q,"params":%s}`, 60+k, op, c13Params(op)), fmt.Sprint(60+k))
+			if err != nil {
+				viol = append(viol, V("call-fails:"+mode, "%s: %v", op, err))
+				continue
+			}
+			if key, msg := c13Judge(mode, op, "admin", sid, f); key != "" {
+				viol = append(viol, V(key+":"+mode+":"+op, "%s", msg))
+			}
+			obs.Add("%s ok", op)
+		}
+	})
+	o := finishOutcome(res, obs, viol, true)
+	cr.ObsKey = cr.Desc + o.ObsKey
+	cr.Violations = o.Violations
+	cr.Broken = o.Broken
+	return cr
+}
+
 func c13Run(prefix []int, mode string, opsA, opsB []string) explore.Outcome {
 	var viol []explore.Violation
 	obs := &hx.Log{}
@@ -303,11 +343,14 @@ func init() {
 		}, Doc: mode + ": admin [list, call] || guest [call, list]"})
 		c20Extra = append(c20Extra, "c13/"+mode+"/seq")
 	}
+	RegisterEnum(&Enum{Name: "c13/visibility", Doc: "one tools/call, prompts/get and resources/read on each of 5 server configurations (incl. sessions disabled): context-function values in registration order, session, server handle and notification sender are visible to the handler",
+		Count: func(string) int { return 5 }, Eval: c13Visibility})
 	RegisterEnum(&Enum{Name: "c13/filter-subsets", Doc: "every subset of {tool, prompt, resource} list filters on 4 server modes: the guest misses the secret entry exactly in the lists whose filter is configured",
 		Count: func(string) int { return 32 }, Eval: c13Subsets})
 	RegisterCheck("C13", func(c *Ctx) {
 		c.Level = "exploration"
 		c.Enumerate("c13/filter-subsets")
+		c.Enumerate("c13/visibility")
 		c.Rule = "two clients with distinct header tokens (admin/guest) concurrently issue every pair of {tools/list, tools/call, prompts/list, prompts/get, resources/list, resources/read} on Streamable (JSON, SSE, stateless) and legacy SSE servers configured with two order-sensitive HTTP context functions, list filters, a middleware and echoing handlers; DFS (sleep-set reduced) over all schedules within the preemption bound; each answer and each middleware record must carry the requester's own token/session, and a note the middleware leaves on the request's session must be the one the handler of the same request reads back; plus the complete enumeration of the 8 subsets of configured list filters x 4 modes"
 		c.Assume = append(c.Assume, "memnet replaces net/http", "sleep-set partial-order reduction (DESIGN 2.8)")
 		for _, mode := range []string{"sj", "ss", "sl", "ls"} {
